@@ -95,6 +95,10 @@ fn op_src(name: &str, t: String, rest: &[E]) -> String {
         "keys" => format!("{}.keys().to_tuple()", t),
         "values" => format!("{}.values().to_tuple()", t),
         "sortkey" => format!("{}.sort(|x| x[0])", t),
+        "sortval" => format!("{}.sort(|k, v| v)", t),
+        "retainfn" => format!("{}.retain(|x| x > 1)", t),
+        "extendinc" => format!("{}.extend({}.each(|x| x + 1))", t, a[0]),
+        "updateinc" => format!("{}.update({}, {}, |x| x + 1)", t, a[0], a[1]),
         "update" => format!("{}.update({}, {}, |x| (x, 0))", t, a[0], a[1]),
         m => call(m),
     }
